@@ -590,6 +590,17 @@ def parse_mir(text, crate):
                 fns.append(cur)
                 curbb = None
                 continue
+        if c0 in 'cs' and (line.startswith('const ') or line.startswith('static ')) and line.endswith(';'):
+            m = re.match(r'^(const|static(?: mut)?) (.+?): (.*?) = (.*);$', line)
+            if m:
+                f1 = Fn(m.group(2), crate, 'const' if m.group(1) == 'const' else 'static')
+                f1.sig = line
+                f1.lineno = ln + 1
+                f1.ret = m.group(3)
+                f1.locals[0] = m.group(3)
+                f1.blocks[0] = ['_0 = %s;' % m.group(4), 'return;']
+                fns.append(f1)
+                continue
         if c0 == 'a' and line.startswith('alloc'):
             m = re.match(r'(alloc\d+) \(static: ([^,]+),', line)
             if m:
